@@ -17,9 +17,9 @@ import tempfile
 
 import numpy as np
 
-from pyvc import effects
+from pyvc import effects, paths
 from pyvc.loader import REPO
-from .common import real_coxeter
+from .common import real_coxeter, path_tag
 from .polytope_state import stock_real
 
 LEVEL = "other"
@@ -327,6 +327,81 @@ def run_bounded(chk):
     chk.run_parallel([(f"pure/{cn}", lambda c, cn=cn: per_class(c, cn)) for cn in CLASSES])
 
 
+def hoomd_restores(chk):
+    """Polygon.to_hoomd / Polyhedron.to_hoomd move the shape to the origin, export, and move it back.  Executed on a symbolic number of vertices
+    with the centroid getter replaced by its contract (C02 / C04: the centroid moves with the vertices -- c(V + t) = c(V) + t, c(V) an arbitrary point
+    c0), the real centroid setter, and to_json / _find_equations by recording stubs: on EVERY path the stored vertices at return are the stored
+    vertices at entry, and the exported vertices are those of the shape with its centroid at the origin."""
+    import sympy as sp
+    from pyvc.sym import Sym, to_expr
+    from pyvc.symarr import SymArr, make
+    from . import mutators as M
+    ld = chk.loader()
+    shapes = ld.load("coxeter.shapes")
+    c0 = [sp.Symbol(f"c0_{j}", real=True) for j in range(3)]
+    Vf = sp.Function("Vm", real=True)
+    for cls_name, mod in (("Polygon", "coxeter.shapes.polygon"), ("Polyhedron", "coxeter.shapes.polyhedron")):
+        klass = getattr(shapes, cls_name)
+        fkey = chk.function(mod, f"{cls_name}.to_hoomd")
+        real_setter = klass.centroid.fset
+
+        def cen_get(self):
+            # contract: the centroid of the current vertices V + tau is c0 + tau, tau the translation applied so far (index-free)
+            tau = []
+            for j in range(3):
+                d = sp.expand(to_expr(self._vertices.inner[j]) - Vf(M.NV.k, sp.Integer(j)))
+                if d.has(M.NV.k):
+                    raise paths.OutOfReach("the vertices are no longer a translate of the vertices at entry")
+                tau.append(d)
+            return np.array([Sym(c0[j] + tau[j]) for j in range(3)], dtype=object)
+        sub = type(cls_name, (klass,), {"centroid": property(cen_get, real_setter),
+                                        "to_json": lambda self, attrs: {a: (self._vertices.copy() if a == "vertices" else self.centroid if a == "centroid" else Sym(sp.Symbol("json_" + a))) for a in attrs},
+                                        "_find_equations": lambda self: None})
+
+        def run_h():
+            o = object.__new__(sub)
+            o._vertices = make("Vm", (M.NV, 3))
+            o._normal = np.array([Sym(sp.Symbol(f"nm{j}", real=True)) for j in range(3)], dtype=object)
+            d = o.to_hoomd()
+            return o._vertices, d.get("vertices"), d.get("centroid")
+        for p in chk.explore(fkey, run_h, assumptions=M.NV.facts()):
+            t = path_tag(p)
+            if p.kind != "return":
+                chk.path_raised(fkey, p) or chk.record(f"{cls_name}.to_hoomd:returns[{t}]", fkey, "refuted", "path-enumeration", detail=f"{type(p.exc).__name__}: {p.exc}"[:200],
+                                                       model={}, replay=_replay_member(cls_name, "to_hoomd"), abstracted=True)
+                continue
+            after, exported, cen = p.value
+            goal = sp.And(*[sp.Eq(sp.expand(to_expr(after.inner[j]) - Vf(M.NV.k, sp.Integer(j))), 0) for j in range(3)]) if isinstance(after, SymArr) and after.axes == (M.NV, 3) else sp.false
+            chk.prove(f"{cls_name}.to_hoomd:stored_vertices_are_restored[{t}]", fkey, list(p.pc), goal, replay=_replay_hoomd_scale(cls_name))
+            ncol = 2 if cls_name == "Polygon" else 3
+            okx = isinstance(exported, SymArr) and exported.axes == (M.NV, ncol)
+            goal2 = sp.And(*[sp.Eq(sp.expand(to_expr(exported.inner[j]) - (Vf(M.NV.k, sp.Integer(j)) - c0[j])), 0) for j in range(ncol)]) if okx else sp.false
+            chk.prove(f"{cls_name}.to_hoomd:exported_vertices_are_those_of_the_centred_shape[{t}]", fkey, list(p.pc), goal2, replay=_replay_hoomd_scale(cls_name))
+
+
+def _replay_hoomd_scale(cls_name):
+    """real to_hoomd on stock shapes at scales 1e-9 .. 1e6: vertices afterwards == before, exported vertices == vertices - centroid"""
+    def replay(model):
+        for c in ([cls_name] + (["ConvexPolygon"] if cls_name == "Polygon" else ["ConvexPolyhedron"])):
+            for sc in (1.0, 1e-9, 1e-4, 1e6):
+                try:
+                    obj = _scaled_stock(c, sc)
+                    V0 = np.array(obj.vertices, float).copy()
+                    c0_ = np.array(obj.centroid, float).copy()
+                    d = obj.to_hoomd()
+                    V1 = np.array(obj.vertices, float)
+                    X = np.array(d["vertices"], float)
+                except Exception as e:  # noqa: BLE001
+                    return True, {"class": c, "scale": sc, "raised": f"{type(e).__name__}: {e}"[:200]}
+                size = float(np.abs(V0 - c0_).max())
+                want = (V0 - c0_)[:, :X.shape[1]]
+                if np.abs(V1 - V0).max() > 1e-9 * size or np.abs(X - want).max() > 1e-9 * size:
+                    return True, {"class": c, "scale": sc, "vertices_before": V0.tolist(), "vertices_after_to_hoomd": V1.tolist(), "exported_vertices": X.tolist(),
+                                  "vertices_minus_centroid": want.tolist()}
+        return False, {}
+    return replay
+
+
 def run(chk):
     chk.trusted += [
         "the may-write analysis is conservative for the Python subset used in coxeter/shapes and coxeter/io (attribute / "
@@ -335,4 +410,5 @@ def run(chk):
         "memo fields (_simplex_areas, _face_centroids, cached edges) are recomputed from the geometry by the getter that owns them",
     ]
     frame_obligations(chk)
+    chk.section("to_hoomd_restores_the_shape", "coxeter.shapes.polygon::Polygon.to_hoomd", lambda: hoomd_restores(chk))
     run_bounded(chk)
